@@ -9,6 +9,7 @@ import (
 	"fmt"
 	"os"
 	"path/filepath"
+	"sort"
 	"strings"
 
 	"verif/internal/pdfdoc"
@@ -300,9 +301,85 @@ func c11Case(i int, raw []byte) Result {
 			removed = []int{}
 		}
 		events = append(events, Event{"event": "Filter", "p": p + 1, "removed": removed})
+		// ---- the other page-rendering operations of the fluent API: each has its own header/footer pass. What an
+		// operation removes is read off the number of times each fragment text occurs with and without the option.
+		vias := c11Vias
+		if tier() == "quick" {
+			vias = []string{c11Vias[(i+p)%len(c11Vias)]}
+		}
+		for _, via := range vias {
+			po, err1 := runTerminal(tabula.Open(path).Pages(p+1), via)
+			fo, err2 := runTerminal(c11Opt(tabula.Open(path).Pages(p+1), c.Opt), via)
+			r.Evals += 2
+			if err1 != nil || err2 != nil {
+				return mk("error", fmt.Sprintf("%s failed: %v / %v", via, err1, err2), nil)
+			}
+			byText := map[string][]int{}
+			var order []string
+			for idx, f := range c.Doc[p] {
+				t := hfText(f, p+1)
+				if _, ok := byText[t]; !ok {
+					order = append(order, t)
+				}
+				byText[t] = append(byText[t], idx+1)
+			}
+			var gone []int
+			usable := true
+			for _, t := range order {
+				np, nf := countWord(po.Text, t), countWord(fo.Text, t)
+				if np != len(byText[t]) {
+					usable = false // this operation does not show the page's fragments one by one (joined or escaped text)
+					break
+				}
+				if nf > np {
+					return mk("not-subsequence", fmt.Sprintf("public API (%s): page %d with exclusion shows %q %d times, without it %d times", via, p+1, t, nf, np), nil)
+				}
+				// the removed ones among equal texts: those that may be removed first
+				ids := append([]int{}, byText[t]...)
+				sort.SliceStable(ids, func(a, b int) bool { return inSet(c.Allowed[p], ids[a]) && !inSet(c.Allowed[p], ids[b]) })
+				gone = append(gone, ids[:np-nf]...)
+			}
+			if !usable {
+				continue
+			}
+			if cl, what := hfJudge(&c, p, gone, "public API ("+via+")", raw); cl != "" {
+				return mk(cl+":"+via, what, map[string]interface{}{"plain": po.Text, "filtered": fo.Text})
+			}
+		}
 	}
 	r.Events = events
 	return r
+}
+
+// (Fragments() is the raw accessor: it does not apply the exclusion options, and nothing in the statement asks it to)
+var c11Vias = []string{"lines", "paragraphs", "readingorder", "analyze", "blocks", "elements", "document", "markdown"}
+
+func c11Opt(e *tabula.Extractor, opt string) *tabula.Extractor {
+	switch opt {
+	case "headers":
+		return e.ExcludeHeaders()
+	case "footers":
+		return e.ExcludeFooters()
+	}
+	return e.ExcludeHeadersAndFooters()
+}
+
+// countWord counts the occurrences of t in s that are not part of a longer word or number
+func countWord(s, t string) int {
+	isW := func(b byte) bool { return b >= '0' && b <= '9' || b >= 'a' && b <= 'z' || b >= 'A' && b <= 'Z' }
+	n := 0
+	for from := 0; ; {
+		k := strings.Index(s[from:], t)
+		if k < 0 {
+			return n
+		}
+		at := from + k
+		end := at + len(t)
+		if (at == 0 || !isW(s[at-1])) && (end == len(s) || !isW(s[end])) {
+			n++
+		}
+		from = at + 1
+	}
 }
 
 func c11(mode, in, out string) error {
